@@ -23,7 +23,7 @@ ASSUMPTIONS = ["numpy/math trigonometric functions are correct to a few ulp",
 TOLERANCES = {"roundtrip": 1e-12, "compose": 1e-12, "radius": 1e-13,
               "rot_vs_elementary": 1e-13, "orthogonal": 1e-14,
               "rigid": 1e-11}
-TIMEOUT = 120
+TIMEOUT = 600
 
 SYSTEMS = ["cartesian", "spherical", "cylindrical"]
 COORD = {"quick": [0.0, -0.0, 1e-9, -1e-9, 0.5, -0.5, 3.0, -3.0, 1e9],
